@@ -719,10 +719,11 @@ def run(ck):
                 flush()
     flush()
 
-    # one TLV swept over its type, length and value: T (all 256; quick: the assigned types and their neighbours) x
-    # L 0..3 x V over {00, 01, ff}^L, alone and followed by a well-formed parameter, in each parameter-list PDU type
-    for t_ in (range(256) if T else list(range(17)) + [127, 128, 254, 255]):
-        for l_ in range(4):
+    # one TLV swept over its type, length and value: T (all 256) x L 0..3 (quick: 0..1 away from the assigned types)
+    # x V over {00, 01, ff}^L, alone and followed by a well-formed parameter, in each parameter-list PDU type
+    near = set(range(17)) | {127, 128, 254, 255}
+    for t_ in range(256):
+        for l_ in (range(4) if T or t_ in near else range(2)):
             for v_ in itertools.product((0, 1, 255), repeat=l_):
                 tlv = bytes([t_, l_]) + bytes(v_)
                 for hdr, nxt in ((b"\x00\x40", b"\x04\x01\x64"), (b"\x11\x20", b"\x05\x01\x02"), (b"\x81\x84", b"\x02\x02\x00\x78"),
@@ -960,6 +961,15 @@ def run(ck):
         pending.append(("frmr %s %d %d %d %d %s" % ((flags or "-",) + tuple(cnt) + (R.text(desc),)), real, rp))
         ck.case(("frmr", R.text(desc), flags, cnt), True, bucket)
         if valid(desc) and len(set(flags)) == len(flags) and max(cnt) <= 15:
+            # LLCP 1.3 4.3.9: W R I S flags, PTYPE and sequence field of the rejected PDU, V(S) V(R) V(SA) V(RA) of the
+            # connection; the FRMR PDU travels in the opposite direction
+            k_, d_, s_ = desc[0], desc[1 + (desc[0] == "unknown")], desc[2 + (desc[0] == "unknown")]
+            seqf = (desc[3], desc[4]) if k_ == "i" else (0, desc[3]) if k_ in ("rr", "rnr") else (0, 0)
+            expect = ("frmr", s_, d_, sum(1 << "SRIW".index(c) for c in flags), desc[1] if k_ == "unknown" else PTYPE[k_]) + seqf + \
+                (cnt[0], cnt[2], cnt[1], cnt[3])
+            if fd != expect:
+                ck.fail("frmr-from-pdu-fields", "FrameReject.from_pdu(%s, %r, V(S)=%d V(SA)=%d V(R)=%d V(RA)=%d) = %s, expected %s"
+                        % ((R.text(desc)[:160], flags) + tuple(cnt) + (real[:200], R.text(expect))), rp)
             if fd is None or not valid(fd):
                 ck.fail("frmr-from-pdu-invalid", "FrameReject.from_pdu(%s, %r, counters %s) = %s" % (R.text(desc)[:160], flags, cnt, real[:200]), rp)
             else:
